@@ -280,6 +280,14 @@ def resp_masks(schema, tier):
     "functions": ["ctap2::Response::serialize::<N>", "serde-indexed SerializeIndexed expansions of the six response structs",
                   "serde derive Serialize of nested types", "cbor_smol::ser::*", "cosey RawPublicKey::serialize",
                   "FilteredPublicKeyCredentialParameters::serialize", "untagged AttestationStatement"],
+    "bounds": "every response struct: no optional member, every single optional member (thorough: also every adjacent pair) with all "
+              "nested members present, byte-for-byte against the reference encoding under the specification keys; all bytes/text "
+              "contents (<= 8 bytes each), booleans, COSE coordinates symbolic; every optional integer member alone with its value "
+              "symbolic over a whole head class; status byte / empty-map collapse / per-variant arm through Response::serialize::<N> "
+              "(N <= 64) for ClientPin, LargeBlobs, MakeCredential, CredentialManagement, GetInfo, Reset, Selection, Vendor",
+    "out": "GetAssertion / GetNextAssertion THROUGH Response::serialize (the enum move makes CBMC lose the Option discriminants of the "
+           "1.5 KB response: no answer in 10 min; their bodies are checked through cbor_serialize, the call the shared arm makes); "
+           "member contents longer than 8 bytes (C17/C12 cover sizes); arbitrary subsets beyond singletons/pairs",
 })
 def plan_c02(tier, seed):
     from .gen_resp import encode_harness
@@ -293,14 +301,1432 @@ def plan_c02(tier, seed):
 
     for kind in RESP_KINDS:
         schema = spec.RESPONSES[kind]
+        tag = schema.name if kind != "GetNextAssertion" else "gna"
         opts, sets = resp_masks(schema, tier)
         if kind == "GetNextAssertion":
-            sets = [("none", []), ("only_user", ["user"])]
+            continue  # same struct type as GetAssertion; the dispatch arm is covered below
         for mname, pres in sets:
-            feats = [schema.field(o).feature for o in pres if schema.field(o).feature]
+            # the body: cbor_serialize(&response, ..), the exact call each Response::serialize arm makes
             var = Variation(present={schema.name: pres}, default_present="all", intclass=0, maxlen=8, text="ascii", seed=seed)
-            add(encode_harness("c02_%s_%s" % (schema.name if kind != "GetNextAssertion" else "gna", mname), "C02", kind, var,
-                               "%s response with optional members %s (nested members all present); values symbolic"
-                               % (kind, ",".join(pres) or "none")), configs="all" if mname == "none" else "rich")
-    write_gen("C02", hs)
+            add(encode_harness("c02_%s_%s" % (tag, mname), "C02", kind, var,
+                               "%s response body with optional members %s (nested members all present); all values symbolic"
+                               % (kind, ",".join(pres) or "none"), via="direct"), configs="all" if mname == "none" else "rich")
+        # integers: each integer member alone, symbolic over a whole head class
+        for f in schema.fields:
+            if f.ty is not None and f.ty.name in ("u8", "u32", "usize") and not f.required:
+                for cls in ((1, 2, 4, 8) if tier == T else (2,)):
+                    from . import cbor as C
+                    if C.CLASS_RANGE[cls][0] > {"u8": 0xFF, "u32": 0xFFFFFFFF, "usize": 2 ** 64 - 1}[f.ty.name]:
+                        continue
+                    var = Variation(present={schema.name: [f.rust]}, default_present="none", intclass=0, maxlen=4, text="ascii", seed=seed,
+                                    choose={"%s.%s#class" % (schema.name, f.rust): cls})
+                    add(encode_harness("c02_%s_int_%s_c%d" % (tag, f.rust, cls), "C02", kind, var,
+                                       "%s response with %s symbolic over the whole %d-byte-argument class" % (kind, f.rust, cls), via="direct"))
+    # framing through Response::serialize: status byte, per-variant arm, empty-map collapse
+    FRAMES = [("ClientPin", []), ("ClientPin", ["retries", "pin_token"]), ("LargeBlobs", []), ("MakeCredential", []), ("MakeCredential", ["ep_att"]),
+              ("CredentialManagement", []), ("CredentialManagement", ["total_rps", "rp_id_hash"]), ("GetInfo", []), ("GetInfo", ["max_msg_size"])]
+    for kind, pres in FRAMES:
+        schema = spec.RESPONSES[kind]
+        var = Variation(present={schema.name: pres}, default_present="all", intclass=0, maxlen=8, text="ascii", seed=seed)
+        add(encode_harness("c02_frame_%s_%s" % (schema.name, "_".join(pres) or "none"), "C02", kind, var,
+                           "%s through Response::serialize: 0x00 + body (status byte alone when no member is set); members: %s"
+                           % (kind, ",".join(pres) or "none"), via="response"), configs="first")
+    write_gen("C02", hs, prelude=C02_PRELUDE)
+    metas.append(S("c02_parameterless", "Reset / Selection / Vendor encode as the status byte alone, whatever the buffer held", configs="first", sym=9))
+    return metas
+
+
+C02_PRELUDE = '''
+/// Reset, Selection and Vendor encode as the status byte alone (buffer pre-filled with symbolic bytes)
+#[kani::proof]
+#[kani::unwind(20)]
+fn c02_parameterless() {
+    let pre: [u8; 9] = kani::any();
+    let kinds = [Response::Reset, Response::Selection, Response::Vendor];
+    let mut k = 0;
+    while k < 3 {
+        let mut buf: ctap_types::Vec<u8, 16> = ctap_types::Vec::new();
+        let mut i = 0;
+        while i < 9 {
+            buf.push(pre[i]).ok().unwrap();
+            i += 1;
+        }
+        kinds[k].serialize(&mut buf);
+        assert!(buf.len() == 1 && buf[0] == 0x00, "parameter-less response = status byte alone");
+        k += 1;
+    }
+    kani::cover!(k == 3, "all three");
+}
+'''
+
+
+# ---------------------------------------------------------------------------------- C05
+def pick(items, tier, seed, k):
+    """quick tier: a seed-determined sample of k items (evenly spread); thorough: all"""
+    items = list(items)
+    if tier == T or len(items) <= k:
+        return items
+    step = len(items) / float(k)
+    off = seed % max(1, int(step))
+    return [items[min(len(items) - 1, int(i * step) + off)] for i in range(k)]
+
+
+@register("C05", "g05", {
+    "functions": ["ctap_types::ctap2::Request::deserialize", "impl From<CtapMappingError> for ctap2::Error",
+                  "serde-indexed visit_map (missing_field / duplicate_field / inexistent index)", "serde derive visit_map of nested types",
+                  "cosey check_key_constants", "cbor_smol::de raw_deserialize_* (non-minimal / indefinite / bad major)"],
+    "bounds": "one fault per message, applied to the full-presence template of each parameter-bearing command (all bytes/text contents "
+              "symbolic, integers small constants): removal of each required parameter / required nested member, duplication of each key, "
+              "non-minimal re-encoding of each integer and each length head, indefinite-length form of each container and string, each "
+              "member's value replaced by one value of every other data type, an unknown integer key, truncation after every item "
+              "boundary +-1 (enumerated cut points), the empty message, all 256 command bytes with an empty payload",
+    "out": "several simultaneous faults (status precedence); faults inside values that are skipped as unknown members; sign changes of "
+           "signed members and null for optional members (not faults)",
+})
+def plan_c05(tier, seed):
+    from .gen_fault import (status_harness, walk, pdesc, pname, remove_entry, dup_entry, edit, get, other_type_values, node_type, KeyRef)
+    from .types import Variation, Ctx
+    from . import spec, cbor as C
+    from .hb import Harness
+    hs, metas = [], []
+
+    def add(h, configs="rich"):
+        hs.append(h)
+        metas.append(G(h, configs))
+
+    cmds = ((0x0C, "lb"), (0x06, "cp"), (0x0A, "cm"), (0x02, "ga"), (0x01, "mc"))
+    for cmd, tag in cmds:
+        schema, variant = spec.REQUESTS[cmd]
+
+        def base_var():
+            return Variation(default_present="all", intclass=0, seed=seed)
+
+        # a scratch build of the tree to enumerate fault sites (same shape as the real one)
+        sh = Harness("scratch", "C05", "")
+        sm = schema.make(Ctx(sh, base_var()), schema.name)
+        tree = schema.cbor(sm)
+        sites = list(walk(tree))
+        maps = [(p, n) for p, n in sites if isinstance(n, C.Map)]
+
+        # 1. required members removed => MissingParameter
+        REQUIRED = {  # spec: which members of which map are required (by key)
+            "mc": {(): [1, 2, 3, 4], (2,): ["id"], (3,): ["id"], (4, 0): ["alg", "type"], (5, 0): ["id", "type"]},
+            "ga": {(): [1, 2], (3, 0): ["id", "type"], (4, "hmac-secret"): [1, 2, 3], (4, "hmac-secret", 1): [1, -1, -2, -3]},
+            "cp": {(): [1, 2], (3,): [1, -1, -2, -3]},
+            "cm": {(): [1], (2, 2): ["id", "type"], (2, 3): ["id"]},
+            "lb": {(): [3]},
+        }[tag]
+        faults = []
+        for mp, keys in REQUIRED.items():
+            for k in keys:
+                faults.append(("missing_%s_%s" % (pname(mp), str(k).replace("-", "m")), 0x14,
+                               "required member %s of %s removed (count adjusted)" % (k, pdesc(mp)),
+                               (lambda mp=mp, k=k: (lambda t: remove_entry(t, list(mp), k)))()))
+        # 2. every key duplicated => InvalidCbor
+        for p, n in maps:
+            for k, v in n.entries:
+                kk = k.describe()
+                faults.append(("dup_%s_%s" % (pname(p), "".join(c if c.isalnum() else "_" for c in kk)), 0x12,
+                               "key %s of %s duplicated" % (kk, pdesc(p)),
+                               (lambda p=p, k=k: (lambda t: dup_entry(t, list(p), k)))()))
+        # 3. non-minimal heads
+        for p, n in sites:
+            if not p:
+                continue
+            if isinstance(n, (C.UInt, C.NInt)) and n.force_class is None:
+                val = n.v if isinstance(n, C.UInt) else n.n
+                cls = 1 if val < 24 else (2 if val < 256 else 4)
+                faults.append(("nonmin_int_%s" % pname(p), 0x12, "integer at %s re-encoded with a %d-byte argument (non-minimal)" % (pdesc(p), cls),
+                               (lambda p=p, cls=cls: (lambda t: edit(t, list(p), lambda x: _force(x, cls))))()))
+            elif isinstance(n, (C.Bytes, C.Array, C.Map)) and n.force_class is None:
+                ln = len(n.content) if isinstance(n, C.Bytes) else (len(n.items) if isinstance(n, C.Array) else len(n.entries))
+                cls = 1 if ln < 24 else 2
+                faults.append(("nonmin_len_%s" % pname(p), 0x12, "length head at %s re-encoded non-minimally" % pdesc(p),
+                               (lambda p=p, cls=cls: (lambda t: edit(t, list(p), lambda x: _force(x, cls))))()))
+        # 4. indefinite-length forms
+        for p, n in sites:
+            if isinstance(n, (C.Bytes, C.Array, C.Map)):
+                faults.append(("indef_%s" % pname(p), 0x12, "item at %s given an indefinite-length head" % pdesc(p),
+                               (lambda p=p: (lambda t: edit(t, list(p), _indefinite)))()))
+        # 5. wrong data type (top-level members and members of nested maps)
+        for p, n in sites:
+            if not p or isinstance(p[-1], int):
+                continue
+            own = node_type(n)
+            for ty in ("uint", "nint", "bytes", "text", "array", "map", "bool"):
+                if ty == own:
+                    continue
+                if own in ("uint", "nint") and ty in ("uint", "nint") and _signed_member(tag, p):
+                    continue  # sign change of a signed member is not a fault
+                faults.append(("type_%s_as_%s" % (pname(p), ty), 0x12, "value at %s replaced by a %s" % (pdesc(p), ty),
+                               (lambda p=p, ty=ty: ("TYPE", p, ty))()))
+        # 6. unknown integer key at top level
+        faults.append(("unknown_int_key", 0x12, "an unassigned integer key (0x20) added to the parameter map",
+                       lambda t: _add_unknown_int_key(t)))
+        # 7. truncation at item boundaries -1/0/+1
+        enc = C.encode(tree)
+        cuts = sorted({c for c in _boundaries(tree) for c in (c - 1, c, c + 1) if 0 <= c < len(enc)})
+        k_each = {"quick": 6}.get(tier, 10 ** 6)
+        chosen = []
+        chosen += pick([f for f in faults if f[0].startswith("missing")], tier, seed, 3)
+        chosen += pick([f for f in faults if f[0].startswith("dup")], tier, seed, 2)
+        chosen += pick([f for f in faults if f[0].startswith("nonmin")], tier, seed, 2)
+        chosen += pick([f for f in faults if f[0].startswith("indef")], tier, seed, 1)
+        chosen += pick([f for f in faults if f[0].startswith("type")], tier, seed, 4)
+        chosen += [f for f in faults if f[0].startswith("unknown") and (tier == T or tag in ("lb", "cm"))]
+        for fname, want, fdesc, change in chosen:
+            if isinstance(change, tuple) and change[0] == "TYPE":
+                _, p, ty = change
+                h = _type_fault_harness("c05_%s_%s" % (tag, fname), cmd, base_var(), p, ty, want, "%s: %s" % (variant, fdesc))
+            else:
+                h = status_harness("c05_%s_%s" % (tag, fname), "C05", cmd, base_var(), change, want, "%s: %s" % (variant, fdesc))
+            add(h)
+        for cut in pick(cuts, tier, seed, 2):
+            add(status_harness("c05_%s_trunc_%d" % (tag, cut), "C05", cmd, base_var(),
+                               (lambda cut=cut: (lambda t: C.encode(t)[:cut]))(), 0x12,
+                               "%s: parameter map truncated after %d of %d bytes" % (variant, cut, len(enc))))
+    write_gen("C05", hs, prelude=C05_PRELUDE)
+    metas.append(S("c05_command_bytes", "all 256 command bytes with an empty payload: unassigned/unsupported => 0x01, parameter-bearing => "
+                   "0x12 (empty map data), parameter-less => accepted", configs="first", sym=1, timeout=1800))
+    metas.append(S("c05_empty_message", "empty message => 0x12", configs="first"))
+    return metas
+
+
+def _force(n, cls):
+    n.force_class = cls
+    return n
+
+
+def _indefinite(n):
+    from . import cbor as C
+    enc = n.enc()
+    major = enc[0] >> 5
+    hl = 1 if (enc[0] & 31) < 24 else {24: 2, 25: 3, 26: 5, 27: 9}[enc[0] & 31]
+    return C.Raw([(major << 5) | 31] + enc[hl:] + [0xFF], "indefinite(" + n.describe() + ")")
+
+
+def _signed_member(tag, p):
+    d = p[-1].describe() if hasattr(p[-1], "describe") else str(p[-1])
+    return d in ("alg", "3", "-1", "1") and len(p) >= 2
+
+
+def _add_unknown_int_key(t):
+    import copy
+    from . import cbor as C
+    t = copy.deepcopy(t)
+    t.entries.append((C.UInt(0x20), C.UInt(1)))
+    return t
+
+
+def _boundaries(tree):
+    """offsets (in the parameter map encoding) at which an item ends"""
+    from . import cbor as C
+    out = []
+
+    def rec(n, base):
+        enc = n.enc()
+        out.append(base + len(enc))
+        if isinstance(n, C.Map):
+            pos = base + len(C.head(C.MT_MAP, len(n.entries)))
+            for k, v in n.entries:
+                pos += len(k.enc())
+                out.append(pos)
+                rec(v, pos)
+                pos += len(v.enc())
+        elif isinstance(n, C.Array):
+            pos = base + len(C.head(C.MT_ARRAY, len(n.items)))
+            for it in n.items:
+                rec(it, pos)
+                pos += len(it.enc())
+    rec(tree, 0)
+    return out
+
+
+def _type_fault_harness(name, cmd, var, p, ty, want, desc):
+    from .gen_fault import status_harness, edit, other_type_values
+    from .hb import Harness
+    holder = {}
+
+    def change(t):
+        return edit(t, list(p), lambda x: holder["vals"][ty])
+    # the replacement values need symbols declared in the same harness: build in two steps
+    from . import spec, cbor as C
+    from .types import Ctx
+    from .gen_req import fsa_for
+    h = Harness(name, "C05", desc, timeout=1500, stub_utf8="branch")
+    schema, variant = spec.REQUESTS[cmd]
+    ctx = Ctx(h, var)
+    m = schema.make(ctx, schema.name)
+    holder["vals"] = other_type_values(h)
+    node = change(schema.cbor(m))
+    msg = [cmd] + C.encode(node)
+    h.requires = tuple(sorted(ctx.requires))
+    h.sample = "%02x %s" % (cmd, node.describe())
+    h.add(*h.array_literal("msg", msg))
+    h.add("let r = Request::deserialize(&msg);")
+    h.add("let st = status(&r);")
+    h.add('assert!(st == 0x%02x, "status for this fault must be 0x%02x");' % (want, want))
+    h.add('kani::cover!(true, "decoder returned");')
+    h.fsa = fsa_for(len(msg))
+    h.unwind = max(h.maxlen, 32) + 4
+    h.bounds = {"message_bytes": len(msg), "unwind": h.unwind, "expected_status": want}
+    return h
+
+
+C05_PRELUDE = '''
+/// all 256 command bytes with an empty payload (symbolic byte, every arm)
+#[kani::proof]
+#[kani::unwind(8)]
+fn c05_command_bytes() {
+    let b: u8 = kani::any();
+    let msg = [b];
+    let st = status(&Request::deserialize(&msg));
+    match b {
+        0x04 | 0x07 | 0x08 | 0x0B | 0x42..=0x7F => assert!(st == 0, "parameter-less command accepted"),
+        0x01 | 0x02 | 0x06 | 0x0A | 0x0C | 0x41 => assert!(st == 0x12, "parameter map missing entirely => InvalidCbor"),
+        _ => assert!(st == 0x01, "unassigned or unsupported command => InvalidCommand"),
+    }
+    kani::cover!(st == 0x01, "InvalidCommand reachable");
+    kani::cover!(st == 0x12, "InvalidCbor reachable");
+}
+
+#[kani::proof]
+fn c05_empty_message() {
+    let st = status(&Request::deserialize(&[]));
+    assert!(st == 0x12, "empty message => InvalidCbor");
+}
+'''
+
+
+# ---------------------------------------------------------------------------------- C12
+@register("C12", "g12", {
+    "functions": ["heapless String<N>/Vec<T,N>/heapless_bytes::Bytes<N>/serde_bytes::ByteArray<N> Deserialize impls as instantiated by the "
+                  "request types", "cbor_smol::de raw_deserialize_u8/u32, deserialize_i32", "webauthn::deserialize_from_str_and_skip_if_too_long"],
+    "bounds": "every bounded member at capacity-1, capacity, capacity+1 and one far-beyond length (contents symbolic): user id 64, rp id 256, "
+              "user icon 128 (dropped beyond), parameter type 32, allow list 10, exclude list 16, hmac salt 80 / salt auth 32, COSE "
+              "coordinates 32, rp id hash exactly 32; every integer member with its argument symbolic over the WHOLE head class for each "
+              "class up to 9-byte heads (accepted iff within the member's type range, then equal)",
+    "out": "lengths strictly between the enumerated points; algorithm identifiers inside -24..=23 other than the enumerated ones",
+})
+def plan_c12(tier, seed):
+    from .gen_fault import nested_accept, accept_harness, status_harness, edit
+    from .gen_req import nested_harness, decode_harness
+    from .types import Variation
+    from . import spec, cbor as C
+    hs, metas = [], []
+
+    def add(h, configs="rich"):
+        hs.append(h)
+        metas.append(G(h, configs))
+
+    ident = lambda t: t
+    # (schema, struct name, member path, capacity, kind) ; kind: reject beyond / drop beyond
+    LIMITS = [
+        (spec.USER, "user.id", 64, "reject", {"user": []}),
+        (spec.RP, "rp.id", 256, "reject", {"rp": []}),
+        (spec.USER, "user.icon", 128, "drop", {"user": ["icon"]}),
+        (spec.PARAMS, "params.key_type", 32, "reject", {}),
+        (spec.HMAC_INPUT, "hmacin.salt_enc", 80, "reject", {"hmacin": []}),
+        (spec.HMAC_INPUT, "hmacin.salt_auth", 32, "reject", {"hmacin": []}),
+        (spec.DESC, "desc.key_type", 32, "reject", {}),
+    ]
+    for schema, path, cap, kind, pres in LIMITS:
+        points = [cap - 1, cap, cap + 1, cap + 40] if tier == T else [cap, cap + 1]
+        for ln in points:
+            var = Variation(present=dict(pres), default_present="none", intclass=0, lens={path: ln}, seed=seed)
+            nm = "c12_%s_len%d" % (path.replace(".", "_"), ln)
+            if ln <= cap:
+                add(nested_accept(nm, "C12", schema, var, ident, "%s of %d bytes (capacity %d): accepted whole" % (path, ln, cap)))
+            elif kind == "reject":
+                add(nested_accept(nm, "C12", schema, var, ident, "%s of %d bytes (capacity %d): rejected with InvalidCbor" % (path, ln, cap),
+                                  expect_status=0x12))
+            else:
+                def patch(m, path=path):
+                    m[path.split(".")[1]] = None
+                add(nested_accept(nm, "C12", schema, var, ident, "%s of %d bytes (capacity %d): dropped, value still accepted" % (path, ln, cap),
+                                  patch_model=patch))
+    # COSE coordinates: 31/32 accepted, 33 rejected (x and y)
+    for coord, key in (("x", -2), ("y", -3)):
+        for ln in ([31, 32, 33] if tier == T else [32, 33]):
+            def change(t, ctx, key=key, ln=ln):
+                v, ex = ctx.h.sym_bytes(ln, "co")
+                return edit(t, [1, key], lambda n: C.Bytes(ex))
+            var = Variation(present={"hmacin": []}, default_present="none", intclass=0, seed=seed)
+            nm = "c12_cose_%s_len%d" % (coord, ln)
+            if ln <= 32:
+                # shorter coordinates are accepted by the Bytes<32> member; the model value is replaced accordingly
+                hh = nested_accept(nm, "C12", spec.HMAC_INPUT, var, change, "COSE %s coordinate of %d bytes: accepted" % (coord, ln),
+                                   expect_status=0x00)
+            else:
+                hh = nested_accept(nm, "C12", spec.HMAC_INPUT, var, change, "COSE %s coordinate of %d bytes: rejected" % (coord, ln),
+                                   expect_status=0x12)
+            add(hh)
+    # rp id hash: exactly 32
+    for ln in ([31, 32, 33, 64] if tier == T else [31, 32, 33]):
+        def change(t, ctx, ln=ln):
+            v, ex = ctx.h.sym_bytes(ln, "rh")
+            return edit(t, [1], lambda n: C.Bytes(ex))
+        var = Variation(present={"cmparams": ["rp_id_hash"]}, default_present="none", intclass=0, seed=seed)
+        add(nested_accept("c12_rp_id_hash_len%d" % ln, "C12", spec.CM_PARAMS, var, change,
+                          "rpIDHash of %d bytes: accepted iff exactly 32" % ln, expect_status=0x00 if ln == 32 else 0x12))
+    # list capacities: allow list 10, exclude list 16
+    for cmd, tag, fld, path, cap in ((0x02, "ga", "allow_list", "ga.allow_list", 10), (0x01, "mc", "exclude_list", "mc.exclude_list", 16)):
+        for cnt in ([cap - 1, cap, cap + 1, cap + 9] if tier == T else [cap, cap + 1]):
+            lens = {path + "#count": cnt}
+            for i in range(cnt):
+                lens["%s[%d].id" % (path, i)] = 2
+                lens["%s[%d].key_type" % (path, i)] = 3
+            var = Variation(present={tag: [fld]}, default_present="none", intclass=0, lens=lens, seed=seed)
+            nm = "c12_%s_count%d" % (fld, cnt)
+            if cnt <= cap:
+                add(accept_harness(nm, "C12", cmd, var, ident, "%s with %d entries (capacity %d): accepted whole" % (fld, cnt, cap), via="direct",
+                                   timeout=2400))
+            else:
+                add(status_harness(nm, "C12", cmd, var, ident, 0x12, "%s with %d entries (capacity %d): rejected with InvalidCbor" % (fld, cnt, cap),
+                                   stub="assume", timeout=2400))
+    # integer members: whole head classes
+    INTS = [(0x0C, "lb", "offset", "u32", True), (0x0C, "lb", "get", "u32", False), (0x06, "cp", "pin_protocol", "u8", True),
+            (0x06, "cp", "permissions", "u8", False), (0x0A, "cm", "pin_protocol", "u8", False),
+            (0x02, "ga", "pin_protocol", "u32", False), (0x01, "mc", "enterprise_attestation", "u32", False)]
+    for cmd, tag, fld, ty, required in (INTS if tier == T else INTS[:4]):
+        schema, variant = spec.REQUESTS[cmd]
+        tymax = {"u8": 0xFF, "u32": 0xFFFFFFFF}[ty]
+        for cls in (1, 2, 4, 8):
+            lo, hi = C.CLASS_RANGE[cls]
+            fits_all = hi <= tymax
+            fits_none = lo > tymax
+            pres = {tag: ([] if required else [fld])}
+            # the member is re-encoded with a symbolic argument over the whole class
+            def change(t, ctx, cls=cls, key=schema.field(fld).key):
+                v = ctx.h.sym_uint(*C.CLASS_RANGE[cls])
+                ctx.h._c12var = v
+                return edit(t, [key], lambda n: C.SymInt(v, cls))
+            var = Variation(present=pres, default_present="none", intclass=0, seed=seed)
+            nm = "c12_int_%s_%s_c%d" % (tag, fld, cls)
+            desc = "%s.%s (%s) with a %d-byte argument symbolic over the whole class" % (variant, fld, ty, cls)
+            h = _int_range_harness(nm, cmd, var, change, fld, required, tymax, desc)
+            add(h)
+        # negative head: never accepted for an unsigned member
+        def changen(t, ctx, key=schema.field(fld).key):
+            v = ctx.h.sym_uint(24, 255)
+            return edit(t, [key], lambda n: C.SymInt(v, 1, C.MT_NINT))
+        var = Variation(present={tag: ([] if required else [fld])}, default_present="none", intclass=0, seed=seed)
+        add(status_harness("c12_int_%s_%s_negative" % (tag, fld), "C12", cmd, var, (lambda t: t), 0x12, "placeholder") if False else
+            _neg_harness("c12_int_%s_%s_negative" % (tag, fld), cmd, var, changen, "%s.%s given a negative integer: rejected" % (variant, fld)))
+    # algorithm identifiers: whole signed 32-bit range accepted by the parameter entry, beyond rejected
+    for major, mname in ((0, "pos"), (1, "neg")):
+        for cls in (1, 2, 4, 8):
+            var = Variation(default_present="all", intclass=0, seed=seed)
+            add(_alg_range_harness("c12_alg_%s_c%d" % (mname, cls), var, cls, major,
+                                   "PublicKeyCredentialParameters.alg with a %s %d-byte argument over the whole class: accepted iff within i32" % (mname, cls)))
+    write_gen("C12", hs)
+    return metas
+
+
+def _int_range_harness(name, cmd, var, change, fld, required, tymax, desc):
+    from .hb import Harness
+    from .types import Ctx
+    from . import spec, cbor as C
+    from .gen_req import fsa_for
+    h = Harness(name, "C12", desc, timeout=1500, stub_utf8="assume")
+    schema, variant = spec.REQUESTS[cmd]
+    ctx = Ctx(h, var)
+    m = schema.make(ctx, schema.name)
+    node = change(schema.cbor(m), ctx)
+    v = h._c12var
+    msg = [cmd] + C.encode(node)
+    h.sample = "%02x %s" % (cmd, node.describe())
+    h.add(*h.array_literal("msg", msg))
+    h.add("let r = Request::deserialize(&msg);")
+    h.add("match r {")
+    h.add("    Ok(Request::%s(req)) => {" % variant)
+    h.add('        assert!(%s <= %d, "a value beyond the type maximum must be rejected, not wrapped or clamped");' % (v, tymax))
+    if required:
+        h.add('        assert!(req.%s as u64 == %s, "accepted integer delivered unchanged");' % (fld, v))
+    else:
+        h.add('        assert!(req.%s.map(|x| x as u64) == Some(%s), "accepted integer delivered unchanged");' % (fld, v))
+    h.add("    }")
+    h.add("    Ok(_) => assert!(false),")
+    h.add('    Err(e) => { assert!(%s > %d, "a value within the type range must be accepted"); assert!(e as u8 == 0x12, "range error => InvalidCbor"); }' % (v, tymax))
+    h.add("};")
+    h.add('kani::cover!(true, "decoder returned");')
+    h.fsa = fsa_for(len(msg))
+    h.unwind = 40
+    h.bounds = {"message_bytes": len(msg), "unwind": 40}
+    return h
+
+
+def _neg_harness(name, cmd, var, change, desc):
+    from .hb import Harness
+    from .types import Ctx
+    from . import spec, cbor as C
+    h = Harness(name, "C12", desc, timeout=1500, stub_utf8="assume")
+    schema, variant = spec.REQUESTS[cmd]
+    ctx = Ctx(h, var)
+    m = schema.make(ctx, schema.name)
+    node = change(schema.cbor(m), ctx)
+    msg = [cmd] + C.encode(node)
+    h.sample = "%02x %s" % (cmd, node.describe())
+    h.add(*h.array_literal("msg", msg))
+    h.add('assert!(status(&Request::deserialize(&msg)) == 0x12, "negative value for an unsigned member => InvalidCbor");')
+    h.add('kani::cover!(true, "decoder returned");')
+    h.unwind = 40
+    h.bounds = {"message_bytes": len(msg), "unwind": 40}
+    return h
+
+
+def _alg_range_harness(name, var, cls, major, desc):
+    from .hb import Harness
+    from . import cbor as C
+    h = Harness(name, "C12", desc, timeout=1500, stub_utf8="assume")
+    lo, hi = C.CLASS_RANGE[cls]
+    v = h.sym_uint(lo, hi)
+    node = C.Map([(C.Text("alg"), C.SymInt(v, cls, major)), (C.Text("type"), C.Text("public-key"))])
+    msg = C.encode(node)
+    h.sample = node.describe()
+    h.add(*h.array_literal("msg", msg))
+    h.add("let r: Result<ctap_types::webauthn::PublicKeyCredentialParameters, _> = cbor_deserialize(&msg);")
+    val = ("(%s as i64)" % v) if major == 0 else ("(-1i64 - (%s as i64))" % v)
+    h.add("match r {")
+    h.add('    Ok(p) => { assert!(%s <= 0x7fff_ffff, "beyond the 32-bit signed range must be rejected"); assert!(p.alg as i64 == %s, "accepted algorithm identifier delivered unchanged (no wrap / sign change)"); }' % (v, val))
+    h.add('    Err(_) => assert!(%s > 0x7fff_ffff, "an identifier within the 32-bit signed range must be accepted"),' % v)
+    h.add("};")
+    h.add('kani::cover!(true, "decoder returned");')
+    h.unwind = 40
+    h.bounds = {"message_bytes": len(msg), "unwind": 40}
+    return h
+
+
+# ---------------------------------------------------------------------------------- C13
+def _filler(i):
+    return 0x61 + (i * 7) % 26      # distinct-ish lower-case ASCII
+
+
+def _text_with_window(h, L, wstart, wlen, prefix="w"):
+    """L bytes of ASCII filler with a fully symbolic window [wstart, wstart+wlen) (clipped to L)"""
+    ws, we = max(0, min(wstart, L)), max(0, min(wstart + wlen, L))
+    exprs = [_filler(i) for i in range(L)]
+    if we > ws:
+        v, ex = h.sym_bytes(we - ws, prefix)
+        for i in range(ws, we):
+            exprs[i] = ex[i - ws]
+    return exprs
+
+
+def _c13_entity(name, kind, member, L, wstart, wlen, desc, tiers=BOTH, timeout=2400):
+    """kind: user|rp ; member: name|display_name (user), name (rp)"""
+    from .hb import Harness
+    from . import cbor as C
+    from .gen_req import fsa_for
+    h = Harness(name, "C13", desc, tiers=tiers, timeout=timeout, stub_utf8="branch")
+    txt = _text_with_window(h, L, wstart, wlen)
+    h.add(*h.array_literal("txt", txt))
+    if kind == "user":
+        key = {"name": "name", "display_name": "displayName"}[member]
+        idv, idex = h.sym_bytes(4, "id")
+        node = C.Map([(C.Text("id"), C.Bytes(idex)), (C.Text(key), C.Text(txt))])
+        rust = "ctap_types::webauthn::PublicKeyCredentialUserEntity"
+    else:
+        idv, idex = h.sym_ascii(4, "id")
+        node = C.Map([(C.Text("id"), C.Text(idex)), (C.Text("name"), C.Text(txt))])
+        rust = "ctap_types::webauthn::PublicKeyCredentialRpEntity"
+    msg = C.encode(node)
+    h.sample = node.describe()
+    h.add(*h.array_literal("msg", msg))
+    h.add("let valid = crate::utf8::is_valid(&txt);")
+    h.add("let r: Result<%s, _> = cbor_deserialize(&msg);" % rust)
+    h.add("match r {")
+    h.add("    Ok(v) => {")
+    h.add('        assert!(valid, "text that is not valid UTF-8 must be rejected");')
+    h.add("        match &v.%s {" % member)
+    h.add("            Some(s) => {")
+    h.add("                let k = crate::utf8::floor_boundary(&txt, 64);")
+    h.add('                assert!(s.len() <= 64, "never longer than 64 bytes");')
+    h.add('                assert!(s.len() == k, "longest prefix <= 64 bytes that ends on a character boundary");')
+    h.add('                assert!(eq(s.as_bytes(), &txt[..k]), "result is a prefix of the text sent");')
+    h.add('                assert!(crate::utf8::is_valid(s.as_bytes()), "result is valid UTF-8");')
+    h.add("            }")
+    h.add('            None => assert!(false, "name sent but reported absent"),')
+    h.add("        }")
+    h.add("    }")
+    h.add('    Err(_) => assert!(!valid, "valid UTF-8 of any length must be accepted"),')
+    h.add("};")
+    h.add('kani::cover!(valid, "some valid text");')
+    if wlen and L > wstart:
+        h.add('kani::cover!(!valid, "some ill-formed text");')
+    h.fsa = fsa_for(max(len(msg), L))
+    h.unwind = max(L, 68) + 6
+    h.bounds = {"text_bytes": L, "symbolic_window": [max(0, min(wstart, L)), max(0, min(wstart + wlen, L))], "unwind": h.unwind}
+    return h
+
+
+def _c13_icon(name, kind, L, desc, tiers=BOTH):
+    from .hb import Harness
+    from . import cbor as C
+    from .gen_req import fsa_for
+    h = Harness(name, "C13", desc, tiers=tiers, timeout=2400, stub_utf8="branch")
+    txt = _text_with_window(h, L, max(0, min(126, L - 4)), 4)
+    h.add(*h.array_literal("txt", txt))
+    if kind == "user":
+        idv, idex = h.sym_bytes(4, "id")
+        node = C.Map([(C.Text("id"), C.Bytes(idex)), (C.Text("icon"), C.Text(txt))])
+        rust = "ctap_types::webauthn::PublicKeyCredentialUserEntity"
+    else:
+        idv, idex = h.sym_ascii(4, "id")
+        node = C.Map([(C.Text("id"), C.Text(idex)), (C.Text("icon" if kind == "rp" else "url"), C.Text(txt))])
+        rust = "ctap_types::webauthn::PublicKeyCredentialRpEntity"
+    msg = C.encode(node)
+    h.sample = node.describe()
+    h.add(*h.array_literal("msg", msg))
+    h.add("let valid = crate::utf8::is_valid(&txt);")
+    h.add("let r: Result<%s, _> = cbor_deserialize(&msg);" % rust)
+    h.add("match r {")
+    h.add("    Ok(v) => {")
+    h.add('        assert!(valid, "text that is not valid UTF-8 must be rejected");')
+    if kind == "user":
+        if L <= 128:
+            h.add('        assert!(matches!(&v.icon, Some(s) if eq(s.as_bytes(), &txt)), "icon of at most 128 bytes kept verbatim");')
+        else:
+            h.add('        assert!(v.icon.is_none(), "over-long icon reported absent");')
+        h.add('        assert!(eq(&v.id[..], &%s), "the rest of the entity is unaffected");' % idv)
+    else:
+        h.add('        assert!(v.icon.is_some(), "relying-party icon/url accepted (and discarded)");')
+        h.add('        assert!(eq(v.id.as_bytes(), &%s) && v.name.is_none(), "the rest of the entity is unaffected");' % idv)
+    h.add("    }")
+    h.add('    Err(_) => assert!(!valid, "a valid icon of any length must not fail the value"),')
+    h.add("};")
+    h.add('kani::cover!(valid, "some valid text");')
+    h.fsa = fsa_for(max(len(msg), L))
+    h.unwind = max(L, 68) + 6
+    h.bounds = {"icon_bytes": L, "unwind": h.unwind}
+    return h
+
+
+@register("C13", "g13", {
+    "functions": ["webauthn::deserialize_from_str_and_truncate", "webauthn::truncate", "webauthn::floor_char_boundary (incl. the unsafe "
+                  "unwrap_unchecked: Kani flags unreachable_unchecked)", "webauthn::is_utf8_char_boundary",
+                  "webauthn::deserialize_from_str_and_skip_if_too_long", "impl Deserialize for webauthn::Icon",
+                  "cbor_smol deserialize_str + core::str::from_utf8 (replaced by the reference validator stub)"],
+    "bounds": "names of total length L in {0,1,60..72,100,300} whose bytes in a window straddling the 64-byte cut are FULLY symbolic "
+              "(8 bytes 60..68 thorough / 4 bytes 62..66 quick: every arrangement of 1-4-byte characters, every alignment, every "
+              "ill-formed sequence), ASCII filler elsewhere; a 4-byte symbolic window at further offsets (thorough); user name, user "
+              "displayName, rp name; icons of 0/127/128/129/300 bytes; rp icon and legacy url",
+    "out": "strings longer than 300 bytes; non-ASCII bytes outside the symbolic window (the routine inspects only bytes 61..=64); names "
+           "inside whole MakeCredential / CredentialManagement messages are covered by the C01 templates (ASCII/UTF-8 by assumption)",
+    "assumptions": ["core::str::from_utf8 replaced by harness/src/utf8.rs::from_utf8_ref (equivalence to std proved for all strings <= 6 bytes)"],
+})
+def plan_c13(tier, seed):
+    hs, metas = [], []
+
+    def add(h, configs="first"):
+        hs.append(h)
+        metas.append(G(h, configs))
+
+    if tier == Q:
+        combos = [("user", "name", L, 62, 4) for L in (64, 65, 67, 70)] + [("user", "display_name", 66, 62, 4), ("rp", "name", 65, 62, 4),
+                                                                           ("user", "name", 0, 0, 0), ("user", "name", 63, 59, 4)]
+    else:
+        combos = [("user", "name", L, 60, 8) for L in (60, 61, 62, 63, 64, 65, 66, 67, 68, 69, 70, 71, 72, 100, 300)]
+        combos += [("user", "display_name", L, 60, 8) for L in (64, 65, 68)] + [("rp", "name", L, 60, 8) for L in (64, 65, 68, 100)]
+        combos += [("user", "name", 0, 0, 0), ("user", "name", 1, 0, 1)]
+        combos += [("user", "name", 70, off, 4) for off in (0, 20, 40, 56, 66)]
+    for kind, member, L, ws, wl in combos:
+        add(_c13_entity("c13_%s_%s_len%d_w%d_%d" % (kind, member, L, ws, wl), kind, member, L, ws, wl,
+                        "%s %s of %d bytes, bytes %d..%d fully symbolic: truncated on a character boundary / rejected iff ill-formed"
+                        % (kind, member, L, ws, ws + wl)))
+    for kind, L in ([("user", 128), ("user", 129), ("rp", 129), ("url", 40)] if tier == Q else
+                    [("user", 0), ("user", 127), ("user", 128), ("user", 129), ("user", 300), ("rp", 0), ("rp", 128), ("rp", 129), ("rp", 300),
+                     ("url", 5), ("url", 300)]):
+        add(_c13_icon("c13_icon_%s_len%d" % (kind, L), kind, L, "%s icon of %d bytes" % (kind, L)))
+    write_gen("C13", hs)
+    return metas
+
+
+# ---------------------------------------------------------------------------------- C14
+@register("C14", "g14", {
+    "functions": ["impl Deserialize for webauthn::FilteredPublicKeyCredentialParameters (visit_seq)",
+                  "TryFrom<PublicKeyCredentialParameters> for KnownPublicKeyCredentialParameters", "webauthn::KNOWN_ALGS",
+                  "impl Deserialize for ctap2::AttestationFormatsPreference (visit_seq)", "AttestationStatementFormat::try_from(&str)"],
+    "bounds": "parameter lists over the alphabet {ES256, EdDSA, unknown algorithm, known algorithm + unknown type}: exhaustively all "
+              "lists of length 0..=2 (quick) / 0..=4 (thorough), longer lists of 12, 13 and 20 entries; the unknown algorithm's argument "
+              "symbolic over a whole 2-, 3- or 5-byte head class of either sign, the unknown type's 10 bytes symbolic (!= \"public-key\"); "
+              "format lists over {packed, none, tpm, symbolic 6-byte text != packed, symbolic 4-byte text != none}: all lists of "
+              "length 0..=2 (quick) / 0..=4 (thorough)",
+    "out": "exhaustive lists of length 5-6; unknown algorithm identifiers inside -24..=23; type strings other than 10 bytes long",
+})
+def plan_c14(tier, seed):
+    import itertools
+    from .gen_req import nested_harness
+    from .types import Variation
+    from . import spec
+    hs, metas = [], []
+
+    def add(h, configs="first"):
+        hs.append(h)
+        metas.append(G(h, configs))
+
+    fp = spec.TFilteredParams()
+    alpha = ["es256", "eddsa", "unkalg", "unktype"]
+    maxlen = 2 if tier == Q else 4
+    lists = [()]
+    for n in range(1, maxlen + 1):
+        lists += list(itertools.product(alpha, repeat=n))
+    extra = [("unkalg",) * 10 + ("eddsa", "es256"), ("unktype",) * 11 + ("es256", "eddsa"), ("es256",) * 20,
+             ("es256", "es256", "eddsa"), ("unkalg", "eddsa", "unktype", "es256", "eddsa")]
+    unk_classes = [(1, 1), (2, 1), (4, 1), (1, 0), (2, 0), (4, 0)]
+    for i, kinds in enumerate(lists + extra):
+        cls = unk_classes[(i + seed) % len(unk_classes)]
+        var = Variation(choose={"filteredparams": list(kinds), "filteredparams#unk": cls}, seed=seed)
+        nm = "c14_params_%s" % ("_".join(k[:3] + k[-1] for k in kinds) if len(kinds) <= 6 else "long%d_%d" % (len(kinds), i))
+        add(nested_harness(nm if kinds else "c14_params_empty", "C14", fp, var,
+                           "pubKeyCredParams list [%s]: first two (public-key, ES256|EdDSA) entries in order, never an error" % ", ".join(kinds)))
+    ap = spec.TAttFmtPref()
+    falpha = ["packed", "none", "tpm", "sym6", "sym4"]
+    flists = [()]
+    for n in range(1, maxlen + 1):
+        flists += list(itertools.product(falpha, repeat=n))
+    flists += [("tpm", "sym6", "none", "packed", "none"), ("packed",) * 5]
+    for kinds in flists:
+        var = Variation(choose={"attfmtpref": list(kinds)}, seed=seed)
+        nm = "c14_formats_%s" % ("_".join(kinds) if kinds else "empty")
+        add(nested_harness(nm, "C14", ap, var,
+                           "attestation format preference list [%s]: known formats in order (first two), unknown flag" % ", ".join(kinds)))
+    write_gen("C14", hs)
+    return metas
+
+
+# ---------------------------------------------------------------------------------- C06
+def unknown_values(h):
+    """(name, node) pairs drawn from the definite-length CBOR grammar; contents symbolic where any"""
+    from . import cbor as C
+    vals = []
+    u1 = h.sym_uint(24, 255)
+    u4 = h.sym_uint(0x10000, 0xFFFFFFFF)
+    u8 = h.sym_uint(0x100000000, 0xFFFFFFFFFFFFFFFF)
+    bv, bex = h.sym_bytes(5, "ub")
+    tv, tex = h.sym_bytes(5, "ut")     # text contents are skipped, not validated: any bytes
+    fv, fex = h.sym_bytes(8, "uf")
+    nest = C.UInt(7)
+    for _ in range(16):
+        nest = C.Array([nest])
+    vals += [
+        ("uint_small", C.UInt(5)), ("uint_1", C.SymInt(u1, 1)), ("uint_4", C.SymInt(u4, 4)), ("uint_8", C.SymInt(u8, 8)),
+        ("nint_1", C.SymInt(u1, 1, C.MT_NINT)), ("nint_8", C.SymInt(u8, 8, C.MT_NINT)),
+        ("bytes", C.Bytes(bex)), ("text", C.Text(tex)), ("empty_bytes", C.Bytes([])),
+        ("array", C.Array([C.UInt(1), C.Text("a"), C.Bytes(bex[:2])])), ("empty_array", C.Array([])),
+        ("map", C.Map([(C.UInt(1), C.UInt(2)), (C.Text("k"), C.Bytes(bex[2:4]))])), ("empty_map", C.Map([])),
+        ("nested_map", C.Map([(C.Text("a"), C.Map([(C.Text("b"), C.Array([C.Map([]), C.UInt(1)]))]))])),
+        ("tag_bytes", C.Tag(24, C.Bytes(bex[:3]))), ("tag_nested", C.Tag(1, C.Tag(2, C.UInt(3)))),
+        ("float16", C.Raw([0xF9] + fex[:2], "float16")), ("float32", C.Raw([0xFA] + fex[:4], "float32")),
+        ("float64", C.Raw([0xFB] + fex[:8], "float64")),
+        ("false", C.Bool(False)), ("true", C.Bool(True)), ("null", C.Null()), ("undefined", C.Raw([0xF7], "undefined")),
+        ("simple16", C.Raw([0xF0], "simple(16)")), ("simple255", C.Raw([0xF8, 0xFF], "simple(255)")),
+        ("depth16", nest), ("string300", C.Text([0x61] * 300)),
+        ("transports", C.Array([C.Text("usb"), C.Text("nfc"), C.Text("ble")])),
+        ("credBlob", C.Bytes(bex)), ("minPinLength", C.Bool(True)), ("credProps", C.Bool(True)),
+        ("prf", C.Map([(C.Text("eval"), C.Map([(C.Text("first"), C.Bytes(fex))]))])),
+        ("hmac_secret_mc", C.Map([(C.UInt(1), C.Map([(C.UInt(1), C.UInt(2))])), (C.UInt(2), C.Bytes(bex))])),
+    ]
+    return vals
+
+
+@register("C06", "g06", {
+    "functions": ["serde derive visit_map of AuthenticatorOptions, make_credential::Extensions, get_assertion::ExtensionsInput, "
+                  "PublicKeyCredentialRpEntity, PublicKeyCredentialUserEntity, PublicKeyCredentialDescriptorRef, PublicKeyCredentialParameters",
+                  "cbor_smol::de::Deserializer::{deserialize_ignored_any, ignore, ignore_array, ignore_bytes, ignore_int, ignore_float}"],
+    "bounds": "host maps: options, MakeCredential / GetAssertion extensions, rp, user, descriptor (stand-alone, inside an allow list, "
+              "inside a CredentialManagement request), pubKeyCredParams entry; one unknown text-keyed member inserted at every position "
+              "(first / between each pair / last); unknown values: 33 shapes of the definite-length grammar (every major type, 1/2/5/9-byte "
+              "heads with symbolic arguments, tags incl. nested, half/single/double floats with symbolic payload, simple values, nesting "
+              "depth 16, a 300-byte string, transports / credBlob / minPinLength / credProps / prf / hmac-secret-mc) with symbolic contents; "
+              "the decoded value is compared member by member with the model of the same message without the unknown member",
+    "out": "symbolic unknown KEYS (a symbolic key makes the field match symbolic: the key set is {\"zz\", \"transports\", a 32-byte key}); "
+           "several unknown members at once (thorough tier has one two-member instance per host); unknown values larger than 300 bytes",
+})
+def plan_c06(tier, seed):
+    from .gen_fault import nested_accept, accept_harness, insert_entry
+    from .hb import Harness
+    from .types import Variation
+    from . import spec, cbor as C
+    hs, metas = [], []
+
+    def add(h, configs="first"):
+        hs.append(h)
+        metas.append(G(h, configs))
+
+    hosts = [(spec.AUTH_OPTIONS, "options"), (spec.MC_EXT, "mcext"), (spec.GA_EXT_IN, "gaext"), (spec.RP, "rp"), (spec.USER, "user"),
+             (spec.DESC_REF, "descref"), (spec.PARAMS, "params")]
+    nvals = len(unknown_values(Harness("x", "C06", "")))
+    keys = ["zz", "transports", "k" * 32]
+    idx = 0
+    for schema, tag in hosts:
+        nent = len([f for f in schema.fields if not f.private and not f.feature])
+        positions = list(range(nent + 1))
+        if tier == Q:
+            combos = [(pos, (idx + 7 * pos + seed) % nvals) for pos in positions]
+        else:
+            combos = [(pos, vi) for pos in positions for vi in range(nvals) if (vi + pos) % len(positions) == 0 or vi < 6]
+        for pos, vi in combos:
+            idx += 1
+            key = keys[(pos + vi) % len(keys)]
+
+            def change(t, ctx, pos=pos, vi=vi, key=key):
+                name, val = unknown_values(ctx.h)[vi]
+                ctx.h._uname = name
+                return insert_entry(t, [], min(pos, len(t.entries)), C.Text(key), val)
+            var = Variation(default_present="all", intclass=0, seed=seed, present={schema.name: [f.rust for f in schema.fields if not f.required and not f.feature and not f.private]})
+            h = nested_accept("c06_%s_pos%d_v%d" % (tag, pos, vi), "C06", schema, var, change,
+                              "%s with an unknown member %r inserted at position %d" % (tag, key, pos), timeout=1800)
+            h.desc += ", value shape: %s" % getattr(h, "_uname", "?")
+            add(h)
+    # inside whole requests: descriptor in an allow list, options + extensions in MakeCredential, user in CredentialManagement
+    whole = [(0x02, "ga", {"ga": ["allow_list"]}, [3, 0], "transports", 27), (0x01, "mc", {"mc": ["options", "extensions"]}, [7], "zz", 11),
+             (0x01, "mc", {"mc": ["options", "extensions"]}, [6], "credBlob", 28), (0x0A, "cm", {"cm": ["sub_command_params"], "cmparams": ["user"]}, [2, 3], "zz", 13),
+             (0x01, "mc", {"mc": []}, [2], "zz", 25), (0x01, "mc", {"mc": []}, [4, 0], "transports", 9)]
+    for cmd, tag, pres, path, key, vi in (whole if tier == T else whole[:4]):
+        def change(t, ctx, path=path, key=key, vi=vi):
+            name, val = unknown_values(ctx.h)[vi]
+            return insert_entry(t, path, 1, C.Text(key), val)
+        var = Variation(default_present="none", present=pres, intclass=0, seed=seed)
+        add(accept_harness("c06_req_%s_%s_v%d" % (tag, "_".join(str(x) for x in path), vi), "C06", cmd, var, change,
+                           "%s request with an unknown member %r inside the map at %s" % (tag, key, path), via="request", timeout=2400))
+    write_gen("C06", hs)
+    return metas
+
+
+# ---------------------------------------------------------------------------------- C04
+C04_PRELUDE = '''
+use ctap_types::webauthn::{PublicKeyCredentialDescriptorRef, PublicKeyCredentialParameters};
+
+/// leaf decoders on FULLY symbolic bytes of symbolic length: no panic, no overflow, no
+/// out-of-bounds, termination (unwinding assertions), and the same bytes give the same result
+macro_rules! leaf {
+    ($name:ident, $ty:ty, $n:expr, $unwind:expr) => {
+        #[kani::proof]
+        #[kani::unwind($unwind)]
+        #[kani::stub(core::str::from_utf8, crate::utf8::from_utf8_ref)]
+        fn $name() {
+            let buf: [u8; $n] = kani::any();
+            let n: usize = kani::any();
+            kani::assume(n <= $n);
+            let r1 = cbor_deserialize::<$ty>(&buf[..n]);
+            let r2 = cbor_deserialize::<$ty>(&buf[..n]);
+            let s1 = cbor_status(&r1);
+            assert!(s1 == 0 || s1 == 0x12 || s1 == 0x14, "status in the three-element set");
+            assert!(s1 == cbor_status(&r2), "same bytes, same result");
+            kani::cover!(s1 == 0, "some input accepted");
+            kani::cover!(s1 == 0x12, "some input rejected");
+        }
+    };
+}
+leaf!(c04_leaf_u8, u8, 4, 8);
+leaf!(c04_leaf_u32, u32, 6, 8);
+leaf!(c04_leaf_u64, u64, 10, 12);
+leaf!(c04_leaf_i32, i32, 6, 8);
+leaf!(c04_leaf_bool, bool, 2, 4);
+leaf!(c04_leaf_str, &str, 8, 12);
+leaf!(c04_leaf_bytes_ref, &serde_bytes::Bytes, 8, 12);
+leaf!(c04_leaf_bytes4, ctap_types::Bytes<4>, 8, 12);
+leaf!(c04_leaf_string4, ctap_types::String<4>, 8, 12);
+leaf!(c04_leaf_bytearray4, serde_bytes::ByteArray<4>, 8, 12);
+leaf!(c04_leaf_icon, ctap_types::webauthn::Icon, 8, 12);
+leaf!(c04_leaf_version, ctap2::get_info::Version, 10, 14);
+leaf!(c04_leaf_attfmt, ctap2::AttestationStatementFormat, 8, 12);
+leaf!(c04_leaf_pin_subcommand, ctap2::client_pin::PinV1Subcommand, 4, 8);
+leaf!(c04_leaf_attfmtpref, ctap2::AttestationFormatsPreference, 6, 10);
+leaf!(c04_leaf_params, PublicKeyCredentialParameters, 5, 10);
+
+/// the generic skipper on a fully symbolic item of <= 5 bytes (reached through an unknown
+/// member of the options map): `{"zz": <item>}`
+#[kani::proof]
+#[kani::unwind(8)]
+#[kani::stub(core::str::from_utf8, crate::utf8::from_utf8_ref)]
+fn c04_skipper_symbolic_item() {
+    let v: [u8; 5] = kani::any();
+    let msg = [0xa1u8, 0x62, 0x7a, 0x7a, v[0], v[1], v[2], v[3], v[4]];
+    let r = cbor_deserialize::<ctap2::AuthenticatorOptions>(&msg);
+    let s = cbor_status(&r);
+    assert!(s == 0 || s == 0x12 || s == 0x14);
+    if let Ok(o) = &r {
+        assert!(o.rk.is_none() && o.up.is_none() && o.uv.is_none(), "an unknown member sets nothing");
+    }
+    kani::cover!(s == 0, "some item skipped");
+    kani::cover!(s == 0x12, "some item rejected");
+}
+
+/// deep nesting of arrays / maps / tags inside a skipped member (recursion of the skipper)
+#[kani::proof]
+#[kani::unwind(70)]
+#[kani::stub(core::str::from_utf8, crate::utf8::from_utf8_assume_valid)]
+fn c04_skipper_deep_nesting() {
+    // {"zz": [[[...64 deep...[1]...]]], "up": true}
+    let mut msg = [0u8; 4 + 64 + 1 + 4];
+    msg[0] = 0xa2;
+    msg[1] = 0x62;
+    msg[2] = 0x7a;
+    msg[3] = 0x7a;
+    let mut i = 0;
+    while i < 64 {
+        msg[4 + i] = match i % 3 { 0 => 0x81, 1 => 0xc1, _ => 0x81 };
+        i += 1;
+    }
+    msg[68] = 0x01;
+    msg[69] = 0x62;
+    msg[70] = 0x75;
+    msg[71] = 0x70;
+    msg[72] = 0xf5;
+    let r = cbor_deserialize::<ctap2::AuthenticatorOptions>(&msg);
+    assert!(matches!(&r, Ok(o) if o.up == Some(true) && o.rk.is_none()), "deeply nested unknown value skipped exactly");
+    kani::cover!(true, "reached");
+}
+'''
+
+
+@register("C04", "g04", {
+    "functions": ["ctap_types::ctap2::Request::deserialize (all arms)", "cbor_smol::de::* incl. ignore/ignore_array", "serde-indexed / serde derive "
+                  "visitors of every request and nested type", "webauthn custom deserialisers (truncate, floor_char_boundary with its unsafe "
+                  "unwrap_unchecked, skip-if-too-long, filtered parameters)", "AttestationFormatsPreference::deserialize"],
+    "bounds": "Kani's implicit checks (panic/unwrap/expect, slice index, arithmetic overflow, invalid pointer, unreachable_unchecked) and "
+              "unwinding assertions (termination) on: (1) 16 leaf/nested decoders on FULLY symbolic bytes (4-10 bytes, symbolic length) incl. "
+              "determinism; (2) the whole decoder on the full-presence template of every command truncated at enumerated cut points (item "
+              "boundaries -1/0/+1), all contents symbolic incl. ill-formed UTF-8; (3) the whole decoder on 1 and 2 (thorough: 3 for the small "
+              "commands) fully symbolic payload bytes after each parameter-bearing command byte; (4) members grown far beyond capacity (300-byte "
+              "names/icons, 257-byte rp id, 17/33-entry lists, 33-byte type strings); (5) the skipper on a fully symbolic 5-byte item and on "
+              "64-deep nesting; every status observed is asserted to be 0x01/0x12/0x14",
+    "out": "arbitrary byte strings longer than 10 bytes that are not a template with symbolic contents; fully symbolic payloads longer than "
+           "2-3 bytes through the whole decoder (measured intractable); stack exhaustion on 7609-byte nesting (a resource property CBMC "
+           "does not model)",
+    "assumptions": ["core::str::from_utf8 replaced by the reference validator stub (both outcomes explored)"],
+})
+def plan_c04(tier, seed):
+    from .gen_fault import status_harness, nested_accept
+    from .hb import Harness
+    from .types import Variation, Ctx
+    from . import spec, cbor as C
+    hs, metas = [], []
+
+    def add(h, configs="rich"):
+        hs.append(h)
+        metas.append(G(h, configs))
+
+    # (2) truncation of full templates
+    for cmd, tag in ((0x0C, "lb"), (0x06, "cp"), (0x0A, "cm"), (0x02, "ga"), (0x01, "mc")):
+        schema, variant = spec.REQUESTS[cmd]
+        sh = Harness("scratch", "C04", "")
+        tree = schema.cbor(schema.make(Ctx(sh, Variation(default_present="all", intclass=0, seed=seed)), schema.name))
+        enc = C.encode(tree)
+        cuts = sorted({c for b in _boundaries(tree) for c in (b - 1, b, b + 1) if 0 <= c < len(enc)})
+        for cut in pick(cuts, tier, seed, 3 if tag in ("mc", "ga") else 4):
+            add(status_harness("c04_%s_trunc_%d" % (tag, cut), "C04", cmd, Variation(default_present="all", intclass=0, seed=seed),
+                               (lambda cut=cut: (lambda t: C.encode(t)[:cut]))(), None,
+                               "%s full template truncated after %d of %d bytes, contents symbolic (incl. ill-formed UTF-8)" % (variant, cut, len(enc)),
+                               timeout=2400))
+        # the complete template with ill-formed UTF-8 allowed
+        add(status_harness("c04_%s_full_anytext" % tag, "C04", cmd, Variation(default_present="all", intclass=0, seed=seed, text="ascii"),
+                           (lambda t: t), None, "%s full template, all contents symbolic" % variant, timeout=2400), configs="all")
+    # (4) growth far beyond capacity
+    GROW = [(spec.USER, "user.name", 300, {"user": ["name"]}), (spec.USER, "user.icon", 300, {"user": ["icon"]}), (spec.RP, "rp.id", 257, {"rp": []}),
+            (spec.RP, "rp.icon", 300, {"rp": ["icon"]}), (spec.PARAMS, "params.key_type", 33, {}), (spec.USER, "user.id", 300, {"user": []})]
+    for schema, path, ln, pres in (GROW if tier == T else GROW[:4]):
+        var = Variation(present=dict(pres), default_present="none", intclass=0, lens={path: ln}, seed=seed, text="ascii")
+        add(nested_accept("c04_grow_%s_%d" % (path.replace(".", "_"), ln), "C04", schema, var, (lambda t: t),
+                          "%s grown to %d bytes: error or documented lossy result, never a crash" % (path, ln), stub="branch", expect_status="any"), configs="first")
+    for cmd, tag, fld, path, cnt in ((0x02, "ga", "allow_list", "ga.allow_list", 17), (0x01, "mc", "exclude_list", "mc.exclude_list", 33)):
+        lens = {path + "#count": cnt}
+        for i in range(cnt):
+            lens["%s[%d].id" % (path, i)] = 1
+            lens["%s[%d].key_type" % (path, i)] = 1
+        add(status_harness("c04_grow_%s_%d" % (fld, cnt), "C04", cmd, Variation(present={tag: [fld]}, default_present="none", intclass=0, lens=lens, seed=seed),
+                           (lambda t: t), None, "%s with %d entries: rejected, never a crash" % (fld, cnt), stub="assume", timeout=2400), configs="first")
+    write_gen("C04", hs, prelude=C04_PRELUDE + _c04_symbolic_payloads(tier))
+    leafs = ["u8", "u32", "u64", "i32", "bool", "str", "bytes_ref", "bytes4", "string4", "bytearray4", "icon", "version", "attfmt", "pin_subcommand",
+             "attfmtpref", "params"]
+    for n in leafs:
+        metas.append(S("c04_leaf_" + n, "cbor_deserialize::<%s> on fully symbolic bytes of symbolic length" % n, configs="first", sym=8, timeout=2400))
+    metas.append(S("c04_skipper_symbolic_item", "unknown member holding a fully symbolic 5-byte item", configs="first", sym=5, timeout=2400))
+    metas.append(S("c04_skipper_deep_nesting", "unknown member nested 64 deep (arrays/tags)", configs="first", fsa=80))
+    for cmd in (0x01, 0x02, 0x06, 0x0A, 0x0C, 0x41):
+        for n in ((1, 2, 3) if tier == T and cmd in (0x06, 0x0A, 0x0C) else (1, 2)):
+            metas.append(S("c04_payload_%02x_%d" % (cmd, n), "Request::deserialize on command 0x%02x followed by %d fully symbolic payload byte(s)" % (cmd, n),
+                           configs="first", sym=n, timeout=3000, tiers=BOTH if n == 1 else (T,)))
+    return metas
+
+
+def _c04_symbolic_payloads(tier):
+    out = []
+    for cmd in (0x01, 0x02, 0x06, 0x0A, 0x0C, 0x41):
+        for n in (1, 2, 3):
+            bs = ", ".join("p[%d]" % i for i in range(n))
+            out.append('''
+#[kani::proof]
+#[kani::unwind(12)]
+#[kani::stub(core::str::from_utf8, crate::utf8::from_utf8_ref)]
+fn c04_payload_%02x_%d() {
+    let p: [u8; %d] = kani::any();
+    let msg = [0x%02xu8, %s];
+    let st = status(&Request::deserialize(&msg));
+    assert!(st == 0 || st == 0x12 || st == 0x14, "a supported command never answers InvalidCommand; status in the set");
+    kani::cover!(st == 0x12, "rejected");
+}
+''' % (cmd, n, n, cmd, bs))
+    return "\n".join(out)
+
+
+# ---------------------------------------------------------------------------------- C03
+C03_PRELUDE = '''
+/// reference shortest-form head for (major, value)
+fn ref_head(major: u8, v: u64, out: &mut [u8; 9]) -> usize {
+    let m = major << 5;
+    if v < 24 {
+        out[0] = m | v as u8;
+        1
+    } else if v <= 0xff {
+        out[0] = m | 24;
+        out[1] = v as u8;
+        2
+    } else if v <= 0xffff {
+        out[0] = m | 25;
+        out[1] = (v >> 8) as u8;
+        out[2] = v as u8;
+        3
+    } else if v <= 0xffff_ffff {
+        out[0] = m | 26;
+        out[1] = (v >> 24) as u8;
+        out[2] = (v >> 16) as u8;
+        out[3] = (v >> 8) as u8;
+        out[4] = v as u8;
+        5
+    } else {
+        out[0] = m | 27;
+        let mut i = 0;
+        while i < 8 {
+            out[1 + i] = (v >> (56 - 8 * i)) as u8;
+            i += 1;
+        }
+        9
+    }
+}
+
+macro_rules! int_head {
+    ($name:ident, $ty:ty) => {
+        /// every value of the type serialises with the shortest-form head (all magnitudes
+        /// across the 24 / 256 / 65536 / 2^32 thresholds, both signs where signed)
+        #[kani::proof]
+        #[kani::unwind(12)]
+        fn $name() {
+            let x: $ty = kani::any();
+            let mut buf = [0u8; 12];
+            let out = cbor_serialize(&x, &mut buf).unwrap();
+            let mut exp = [0u8; 9];
+            let xi = x as i128;
+            let n = if xi >= 0 { ref_head(0, xi as u64, &mut exp) } else { ref_head(1, (-1 - xi) as u64, &mut exp) };
+            assert!(out.len() == n, "shortest-form integer head (length)");
+            assert!(eq(out, &exp[..n]), "shortest-form integer head (bytes)");
+            kani::cover!(n == 9, "9-byte head reachable");
+            kani::cover!(n == 1, "1-byte head reachable");
+        }
+    };
+}
+int_head!(c03_int_u8, u8);
+int_head!(c03_int_u16, u16);
+int_head!(c03_int_u32, u32);
+int_head!(c03_int_u64, u64);
+int_head!(c03_int_usize, usize);
+int_head!(c03_int_i8, i8);
+int_head!(c03_int_i16, i16);
+int_head!(c03_int_i32, i32);
+int_head!(c03_int_i64, i64);
+
+macro_rules! len_head {
+    ($name:ident, $n:expr) => {
+        /// byte/text string length prefixes are shortest-form across the 24 / 256 thresholds
+        #[kani::proof]
+        #[kani::unwind(310)]
+        fn $name() {
+            let c: [u8; $n] = kani::any();
+            let b = ctap_types::Bytes::<300>::from_slice(&c).unwrap();
+            let mut buf = [0u8; 310];
+            let out = cbor_serialize(&b, &mut buf).unwrap();
+            let mut exp = [0u8; 9];
+            let h = ref_head(2, $n as u64, &mut exp);
+            assert!(out.len() == h + $n && eq(&out[..h], &exp[..h]) && eq(&out[h..], &c), "definite, shortest-form length prefix");
+            kani::cover!(true, "reached");
+        }
+    };
+}
+len_head!(c03_len_0, 0);
+len_head!(c03_len_23, 23);
+len_head!(c03_len_24, 24);
+len_head!(c03_len_255, 255);
+len_head!(c03_len_256, 256);
+'''
+
+
+@register("C03", "g03", {
+    "functions": ["cbor_smol::ser (write heads, serialize_map/struct/seq)", "serde derive Serialize of CtapOptions, Certifications, "
+                  "AuthenticatorOptions, make_credential::Extensions, get_assertion::ExtensionsInput/ExtensionsOutput, rp/user entity, "
+                  "descriptor, parameters, PackedAttestationStatement", "SerializeIndexed of every response struct and HmacSecretInput",
+                  "cosey RawPublicKey::serialize"],
+    "bounds": "for every text-keyed map type: the instance with ALL members present and (thorough: every; quick: a seed-determined sample "
+              "of) PAIRS of optional members, byte-for-byte against a reference encoding that is itself verified canonical at generation "
+              "time (definite lengths, shortest heads, keys sorted by major type / length / bytes, single item, no tags/floats); integer-keyed "
+              "response maps with all members and adjacent pairs; all values symbolic; every integer type's whole value range "
+              "against a reference shortest-form head; byte-string length prefixes at 0/23/24/255/256; all four COSE key kinds",
+    "out": "bodies larger than ~300 bytes; subsets other than pairs and the full set (emission is in declaration order, so all subsets "
+           "are sorted iff all pairs are)",
+})
+def plan_c03(tier, seed):
+    import itertools
+    from .gen_resp import value_harness, encode_harness
+    from .types import Variation
+    from . import spec
+    hs, metas = [], []
+
+    def add(h, configs="rich"):
+        hs.append(h)
+        metas.append(G(h, configs))
+
+    types = [(spec.CTAP_OPTIONS, "ctapoptions"), (spec.CERTIFICATIONS, "certs"), (spec.MC_EXT, "mcext"), (spec.GA_EXT_OUT, "gaextout"),
+             (spec.RP, "rp"), (spec.USER, "user"), (spec.DESC, "desc"), (spec.PARAMS, "params"), (spec.AUTH_OPTIONS, "options"),
+             (spec.GA_EXT_IN, "gaext"), (spec.HMAC_INPUT, "hmacin")]
+    for schema, tag in types:
+        opts_all = [f for f in schema.fields if not f.required and not f.private and not f.skip_ser]
+        for featset in ({None}, {None, spec.GIF, spec.TPP}):
+            opts = [f.rust for f in opts_all if f.feature in featset]
+            if featset != {None} and opts == [f.rust for f in opts_all if f.feature is None]:
+                continue
+            sfx = "" if featset == {None} else "_feat"
+            var = Variation(present={schema.name: opts}, default_present="all", intclass=0, maxlen=6, text="ascii", seed=seed)
+            add(value_harness("c03_%s_all%s" % (tag, sfx), "C03", schema, var,
+                              "%s with all %d optional members%s present: canonical key order at every level" % (tag, len(opts), " (incl. feature-gated)" if sfx else "")),
+                configs="all")
+            pairs = list(itertools.combinations(opts, 2))
+            for a, b in pick(pairs, tier, seed, 6 if len(pairs) > 6 else len(pairs)):
+                var = Variation(present={schema.name: [a, b]}, default_present="none", intclass=0, maxlen=6, text="ascii", seed=seed)
+                add(value_harness("c03_%s_pair_%s__%s" % (tag, a, b), "C03", schema, var, "%s with optional members %s and %s" % (tag, a, b)))
+    # attestation statement shapes and COSE keys through the responses that carry them
+    for shape in ("none", "packed", "packed+x5c"):
+        var = Variation(present={"mcresp": ["att_stmt"]}, default_present="none", intclass=0, maxlen=8, seed=seed, choose={"mcresp.att_stmt": shape},
+                        lens={"mcresp.att_stmt.sig": 8, "mcresp.att_stmt.x5c": 8})
+        add(encode_harness("c03_attstmt_%s" % shape.replace("+", "_"), "C03", "MakeCredential", var, "MakeCredential response with a %s attestation statement" % shape, via="direct"))
+    for kind in ("p256", "ecdh", "ed25519", "totp"):
+        var = Variation(present={"cmresp": ["public_key"]}, default_present="none", intclass=0, seed=seed, choose={"cmresp.public_key": kind})
+        add(encode_harness("c03_cose_%s" % kind, "C03", "CredentialManagement", var, "CredentialManagement response carrying a %s COSE key (1, 3, -1, -2, -3 order)" % kind, via="direct"))
+    # integer-keyed response maps: everything present
+    for kind in ("ClientPin", "CredentialManagement", "GetInfo", "MakeCredential", "GetAssertion"):
+        schema = spec.RESPONSES[kind]
+        opts = [f.rust for f in schema.fields if not f.required and not f.private and f.feature is None]
+        var = Variation(present={schema.name: opts}, default_present="none", intclass=0, maxlen=4, text="ascii", seed=seed)
+        add(encode_harness("c03_resp_%s_all" % schema.name, "C03", kind, var, "%s response with every feature-independent member set (nested optional members absent)" % kind,
+                           via="direct", timeout=2400), configs="all")
+        optsf = [f.rust for f in schema.fields if not f.required and not f.private]
+        if optsf != opts:
+            var = Variation(present={schema.name: optsf}, default_present="none", intclass=0, maxlen=4, text="ascii", seed=seed)
+            add(encode_harness("c03_resp_%s_all_feat" % schema.name, "C03", kind, var, "%s response with every member incl. feature-gated ones set" % kind,
+                               via="direct", timeout=2400))
+    write_gen("C03", hs, prelude=C03_PRELUDE)
+    for n in ("u8", "u16", "u32", "u64", "usize", "i8", "i16", "i32", "i64"):
+        metas.append(S("c03_int_" + n, "cbor_serialize of every %s value: shortest-form head" % n, configs="first", sym=8))
+    for n in (0, 23, 24, 255, 256):
+        metas.append(S("c03_len_%d" % n, "byte string of %d bytes: shortest-form definite length prefix" % n, configs="first", sym=n, fsa=320, tiers=BOTH if n in (23, 24) else (T,)))
+    return metas
+
+
+# ---------------------------------------------------------------------------------- C15
+def _roundtrip_de_en(name, prop, schema, var, desc, cmdbyte=None, tiers=BOTH, timeout=1800):
+    """canonical reference bytes -> decode -> encode == the same bytes"""
+    from .hb import Harness
+    from .types import Ctx
+    from . import cbor as C
+    from .gen_req import fsa_for
+    h = Harness(name, prop, desc, tiers=tiers, timeout=timeout, stub_utf8="assume")
+    ctx = Ctx(h, var)
+    m = schema.make(ctx, schema.name)
+    node = schema.cbor_ser(m) if hasattr(schema, "cbor_ser") else schema.cbor(m)
+    msg = C.encode(node)
+    assert C.check_canonical(msg) == len(msg)
+    h.requires = tuple(sorted(ctx.requires))
+    h.sample = node.describe()
+    h.add(*h.array_literal("msg", msg))
+    h.add("let r: Result<%s, _> = cbor_deserialize(&msg);" % schema.rust)
+    h.add("match r {")
+    h.add("    Ok(val) => {")
+    h.add("        let mut outbuf = [0u8; %d];" % (len(msg) + 8))
+    h.add("        match cbor_serialize(&val, &mut outbuf) {")
+    h.add("            Ok(out) => {")
+    h.add('                assert!(out.len() == msg.len(), "re-encoding a value decoded from canonical bytes reproduces their length");')
+    h.add('                assert!(eq(out, &msg), "re-encoding a value decoded from canonical bytes reproduces those bytes");')
+    h.add("            }")
+    h.add('            Err(_) => assert!(false, "decoded value must re-encode"),')
+    h.add("        }")
+    h.add('        kani::cover!(true, "round trip completed");')
+    h.add("    }")
+    h.add('    Err(_) => assert!(false, "canonical reference bytes must decode"),')
+    h.add("};")
+    h.fsa = fsa_for(len(msg) + 8)
+    h.unwind = max(h.maxlen, len(msg), 32) + 4
+    h.bounds = {"message_bytes": len(msg), "unwind": h.unwind, "type": schema.rust, "direction": "decode->encode"}
+    return h
+
+
+def _roundtrip_en_de(name, prop, schema, var, desc, tiers=BOTH, timeout=1800):
+    """value built through the public API -> encode -> decode == the value (member by member)"""
+    from .hb import Harness
+    from .types import Ctx
+    from . import cbor as C
+    from .gen_req import fsa_for
+    h = Harness(name, prop, desc, tiers=tiers, timeout=timeout, stub_utf8="assume")
+    h.encode_side = True
+    var.symbool = False          # the decode half sits behind Option<bool> (see TBool.make)
+    ctx = Ctx(h, var)
+    m = schema.make(ctx, schema.name)
+    v = schema.build(ctx, m)
+    node = schema.cbor_ser(m) if hasattr(schema, "cbor_ser") else schema.cbor(m)
+    n = len(C.encode(node))
+    h.requires = tuple(sorted(ctx.requires))
+    h.sample = node.describe()
+    h.add("let mut outbuf = [0u8; %d];" % (n + 8))
+    h.add("let out = match cbor_serialize(&%s, &mut outbuf) { Ok(o) => o, Err(_) => { assert!(false, \"value must encode\"); return; } };" % v)
+    h.add("let r: Result<%s, _> = cbor_deserialize(out);" % schema.rust)
+    h.add("match r {")
+    h.add("    Ok(val) => {")
+    for l in schema.check(ctx, "val", m):
+        h.add("        " + l)
+    h.add('        kani::cover!(true, "round trip completed");')
+    h.add("    }")
+    h.add('    Err(_) => assert!(false, "the encoding of a value must decode"),')
+    h.add("};")
+    h.fsa = fsa_for(n + 8)
+    h.unwind = max(h.maxlen, n, 32) + 4
+    h.bounds = {"encoded_bytes": n, "unwind": h.unwind, "type": schema.rust, "direction": "encode->decode"}
+    return h
+
+
+BIDIR = None
+
+
+def bidir_types():
+    from . import spec
+    # (schema, tag, buildable through the public API?)
+    return [(spec.CP_REQ, "cpreq", False), (spec.CM_REQ, "cmreq", False), (spec.LB_REQ, "lbreq", False), (spec.CM_PARAMS, "cmparams", False),
+            (spec.GI_RESP, "gi", True), (spec.CP_RESP, "cpresp", True), (spec.LB_RESP, "lbresp", True), (spec.HMAC_INPUT, "hmacin", False),
+            (spec.AUTH_OPTIONS, "options", False), (spec.MC_EXT, "mcext", True), (spec.GA_EXT_IN, "gaext", True), (spec.GA_EXT_OUT, "gaextout", True),
+            (spec.RP, "rp", True), (spec.USER, "user", True), (spec.DESC, "desc", True), (spec.PARAMS, "params", True),
+            (spec.CTAP_OPTIONS, "ctapoptions", True), (spec.CERTIFICATIONS, "certs", False)]
+
+
+@register("C15", "g15", {
+    "functions": ["cbor_deserialize / cbor_serialize of every type that derives both directions: client_pin / credential_management / "
+                  "large_blobs requests, SubcommandParameters, GetInfo / ClientPin / LargeBlobs responses, HmacSecretInput, "
+                  "AuthenticatorOptions, both extension inputs, ExtensionsOutput, rp / user entity, descriptor, parameters, CtapOptions, "
+                  "Certifications; string and numeric enumerations"],
+    "bounds": "decode->encode on canonical reference bytes and encode->decode on values built through the public API, for: no optional "
+              "member, all optional members, every single optional member (thorough: + adjacent pairs); contents symbolic (integers "
+              "small constants in multi-member instances, symbolic classes in single-member ones); rp icon excluded as documented; "
+              "enumerations: every variant through into/try_from (shared with C18)",
+    "out": "subsets beyond none/singletons/pairs/full; contents longer than the per-member defaults (<= 64 bytes)",
+})
+def plan_c15(tier, seed):
+    from .types import Variation
+    from . import spec
+    hs, metas = [], []
+
+    def add(h, configs="rich"):
+        hs.append(h)
+        metas.append(G(h, configs))
+
+    for schema, tag, buildable in bidir_types():
+        opts = [f.rust for f in schema.fields if not f.required and not f.private and not f.skip_ser]
+        sets = [("none", []), ("full", opts)] + [("only_" + o, [o]) for o in opts]
+        if tier == T:
+            sets += [("pair_%s__%s" % (a, b), [a, b]) for a, b in zip(opts, opts[1:])]
+        else:
+            sets = sets[1:2] + pick(sets[2:], tier, seed, 1)
+        seen = set()
+        for mname, pres in sets:
+            if (mname != "none" and not pres) or tuple(pres) in seen:
+                continue
+            seen.add(tuple(pres))
+            single = len(pres) == 1
+            var = Variation(present={schema.name: pres}, default_present="all", intclass=(1 if single else 0), maxlen=16, seed=seed)
+            add(_roundtrip_de_en("c15_de_en_%s_%s" % (tag, mname), "C15", schema, var,
+                                 "%s (%s): canonical bytes -> decode -> encode reproduces the bytes" % (tag, ",".join(pres) or "no optional member")),
+                configs="all" if mname in ("none", "full") else "rich")
+            if buildable:
+                var = Variation(present={schema.name: pres}, default_present="all", intclass=0, maxlen=16, seed=seed, text="ascii")
+                add(_roundtrip_en_de("c15_en_de_%s_%s" % (tag, mname), "C15", schema, var,
+                                     "%s (%s): value -> encode -> decode returns an equal value" % (tag, ",".join(pres) or "no optional member")),
+                    configs="all" if mname in ("none", "full") else "rich")
+    write_gen("C15", hs, prelude=C15_PRELUDE)
+    metas.append(S("c15_enums_roundtrip", "every variant of every string / numeric enumeration: decode(encode(v)) == v", configs="first"))
+    return metas
+
+
+C15_PRELUDE = '''
+use ctap_types::ctap2::get_info::{Version, Extension, Transport};
+use ctap_types::ctap2::AttestationStatementFormat as Fmt;
+use ctap_types::ctap2::client_pin::PinV1Subcommand as Pin;
+use ctap_types::ctap2::credential_management::{Subcommand as Sub, CredentialProtectionPolicy as Cpp};
+
+macro_rules! rt {
+    ($v:expr, $ty:ty) => {{
+        let mut buf = [0u8; 24];
+        let out = cbor_serialize(&$v, &mut buf).unwrap();
+        let back: $ty = cbor_deserialize(out).unwrap();
+        assert!(back == $v, "decode(encode(v)) == v");
+    }};
+}
+
+#[kani::proof]
+#[kani::unwind(24)]
+#[kani::stub(core::str::from_utf8, crate::utf8::from_utf8_assume_valid)]
+fn c15_enums_roundtrip() {
+    rt!(Version::Fido2_0, Version); rt!(Version::Fido2_1, Version); rt!(Version::Fido2_1Pre, Version); rt!(Version::U2fV2, Version);
+    rt!(Extension::CredProtect, Extension); rt!(Extension::HmacSecret, Extension); rt!(Extension::LargeBlobKey, Extension);
+    rt!(Extension::ThirdPartyPayment, Extension);
+    rt!(Transport::Nfc, Transport); rt!(Transport::Usb, Transport);
+    rt!(Fmt::None, Fmt); rt!(Fmt::Packed, Fmt);
+    rt!(Pin::GetRetries, Pin); rt!(Pin::GetKeyAgreement, Pin); rt!(Pin::SetPin, Pin); rt!(Pin::ChangePin, Pin); rt!(Pin::GetPinToken, Pin);
+    rt!(Pin::GetPinUvAuthTokenUsingUvWithPermissions, Pin); rt!(Pin::GetUVRetries, Pin); rt!(Pin::GetPinUvAuthTokenUsingPinWithPermissions, Pin);
+    rt!(Sub::GetCredsMetadata, Sub); rt!(Sub::EnumerateRpsBegin, Sub); rt!(Sub::EnumerateRpsGetNextRp, Sub); rt!(Sub::EnumerateCredentialsBegin, Sub);
+    rt!(Sub::EnumerateCredentialsGetNextCredential, Sub); rt!(Sub::DeleteCredential, Sub); rt!(Sub::UpdateUserInformation, Sub);
+    rt!(Cpp::Optional, Cpp); rt!(Cpp::OptionalWithCredentialIdList, Cpp); rt!(Cpp::Required, Cpp);
+    kani::cover!(true, "reached");
+}
+'''
+
+
+# ---------------------------------------------------------------------------------- C17
+@register("C17", "g17", {
+    "functions": ["ctap2::Response::serialize::<N> (resize to capacity, split status byte, cbor_serialize, shrink to written length / to 1)"],
+    "bounds": "response kinds ClientPin, MakeCredential, CredentialManagement, GetInfo, LargeBlobs (bodies 0..~60 bytes; with large-blobs a "
+              "config of 40 bytes); capacities N in {1, 2, 3, size-2 .. size+2, 64, 128} (const generic); the buffer pre-filled with 0, 1, "
+              "N/2 or N FULLY symbolic bytes; member values symbolic: fits => exactly 0x00 + reference body, else exactly [0x7F], whatever "
+              "the buffer held",
+    "out": "N = 0 (documented precondition: capacity >= 1); capacities 256 / 1024 / 3072 / 7609 and bodies beyond ~120 bytes (measured: "
+           "the resize loops and whole-buffer field sensitivity give no answer within 10 min); GetAssertion through Response::serialize (see C02)",
+})
+def plan_c17(tier, seed):
+    from .gen_resp import encode_harness, build_response
+    from .hb import Harness
+    from .types import Variation
+    from . import spec
+    hs, metas = [], []
+
+    def add(h, configs="first"):
+        hs.append(h)
+        metas.append(G(h, configs))
+
+    shapes = [("ClientPin", ["retries"]), ("ClientPin", ["pin_token", "retries", "power_cycle_state"]), ("ClientPin", []),
+              ("MakeCredential", ["ep_att"]), ("CredentialManagement", ["rp_id_hash", "total_rps"]), ("GetInfo", ["max_msg_size", "transports"]),
+              ("LargeBlobs", [])]
+    for kind, pres in (shapes if tier == T else shapes[:5]):
+        schema = spec.RESPONSES[kind]
+
+        def var():
+            return Variation(present={schema.name: pres}, default_present="all", intclass=0, maxlen=8, text="ascii", seed=seed)
+        probe = Harness("probe", "C17", "")
+        _, _, _, _, body, _ = build_response(probe, kind, var())
+        size = 1 if body == [0xA0] else 1 + len(body)
+        caps = sorted({1, 2, 3, size - 2, size - 1, size, size + 1, size + 2, 64} | ({128} if tier == T else set()))
+        caps = [c for c in caps if c >= 1]
+        if tier == Q:
+            caps = [c for c in caps if c in (1, 2, size - 1, size, size + 1, 64)]
+        for N in caps:
+            fills = [0, 1, N // 2, N] if tier == T else [0, N]
+            for pf in sorted(set(fills)):
+                if pf > N:
+                    continue
+                add(encode_harness("c17_%s_%s_n%d_p%d" % (schema.name, "_".join(pres) or "none", N, pf), "C17", kind, var(),
+                                   "%s response (%d bytes encoded) into capacity %d pre-filled with %d symbolic bytes" % (kind, size, N, pf),
+                                   N=N, prefill=pf, mode="exact", via="response", timeout=2400))
+    write_gen("C17", hs)
+    return metas
+
+
+# ---------------------------------------------------------------------------------- C16
+C16_PRELUDE = '''
+/// the feature-dependent constant and the capacity it gives LargeBlobs `config`
+#[kani::proof]
+#[kani::unwind(8)]
+fn c16_large_blob_constant() {
+    #[cfg(feature = "large-blobs")]
+    assert!(ctap_types::sizes::LARGE_BLOB_MAX_FRAGMENT_LENGTH == 3008);
+    #[cfg(not(feature = "large-blobs"))]
+    assert!(ctap_types::sizes::LARGE_BLOB_MAX_FRAGMENT_LENGTH == 0);
+    // config: None and Some(empty) encode identically in every configuration
+    let mut r = ctap2::large_blobs::Response::default();
+    let mut b1 = [0u8; 8];
+    let o1 = cbor_serialize(&r, &mut b1).unwrap();
+    assert!(o1.len() == 1 && o1[0] == 0xa0, "no member set: empty map");
+    r.config = Some(ctap_types::Bytes::new());
+    let mut b2 = [0u8; 8];
+    let o2 = cbor_serialize(&r, &mut b2).unwrap();
+    assert!(o2.len() == 3 && o2[0] == 0xa1 && o2[1] == 0x01 && o2[2] == 0x40, "empty config: {1: h\\'\\'}");
+    kani::cover!(true, "reached");
+}
+'''
+
+
+@register("C16", "g16", {
+    "functions": ["the cfg(feature)-gated field lists of get_info::Response, get_info::CtapOptions, credential_management::Response, "
+                  "make_credential::Extensions, get_assertion::ExtensionsInput/ExtensionsOutput as seen by the serde / serde-indexed derives",
+                  "sizes::LARGE_BLOB_MAX_FRAGMENT_LENGTH"],
+    "bounds": "the SAME feature-independent instances (requests: every command with no / all feature-independent optional parameters; "
+              "responses: GetInfo, CredentialManagement, ClientPin, MakeCredential extensions, CtapOptions with every feature-independent "
+              "member) are decided in EACH of the 8 combinations of get-info-full / large-blobs / third-party-payment against one "
+              "feature-free oracle encoding (equality to a common oracle in A and in B implies A and B agree); plus, per configuration, "
+              "the feature-gated members under their own specification keys; contents symbolic",
+    "out": "std / arbitrary (no wire effect: `std` only removes no_std, `arbitrary` only adds impls; checked to build at the all-on corner "
+           "by C19's configuration); instances beyond the listed ones",
+})
+def plan_c16(tier, seed):
+    from .gen_req import decode_harness
+    from .gen_resp import encode_harness, value_harness
+    from .types import Variation
+    from . import spec
+    hs, metas = [], []
+
+    def add(h, configs="all8"):
+        hs.append(h)
+        metas.append(G(h, configs))
+
+    # decode side: every command, feature-independent members only
+    for cmd, tag in ((0x0C, "lb"), (0x06, "cp"), (0x0A, "cm"), (0x02, "ga"), (0x01, "mc")):
+        schema, variant = spec.REQUESTS[cmd]
+        opts = [f.rust for f in schema.fields if not f.required and not f.private]
+        if tier == Q and tag in ("lb", "cp"):
+            continue
+        var = Variation(present={schema.name: opts}, default_present="all", intclass=0, seed=seed, maxlen=12)
+        add(decode_harness("c16_req_%s_common" % tag, "C16", cmd, var,
+                           "%s request using only feature-independent members decodes to the same values in every configuration" % variant,
+                           via="direct", timeout=2400))
+    # encode side
+    for kind, tag in (("GetInfo", "gi"), ("CredentialManagement", "cmresp"), ("ClientPin", "cpresp")):
+        schema = spec.RESPONSES[kind]
+        opts = [f.rust for f in schema.fields if not f.required and not f.private and f.feature is None]
+        var = Variation(present={schema.name: opts}, default_present="all", intclass=0, maxlen=4, text="ascii", seed=seed)
+        add(encode_harness("c16_resp_%s_common" % tag, "C16", kind, var,
+                           "%s response with every feature-independent member encodes to the same bytes in every configuration" % kind,
+                           via="direct", timeout=2400))
+    for schema, tag in ((spec.CTAP_OPTIONS, "ctapoptions"), (spec.MC_EXT, "mcext"), (spec.GA_EXT_OUT, "gaextout")):
+        opts = [f.rust for f in schema.fields if not f.required and f.feature is None]
+        var = Variation(present={schema.name: opts}, default_present="all", intclass=0, maxlen=4, text="ascii", seed=seed)
+        add(value_harness("c16_val_%s_common" % tag, "C16", schema, var, "%s with every feature-independent member: same bytes in every configuration" % tag))
+    # feature members under their own keys (only in configurations that have them)
+    feat = [("GetInfo", "gi", ["force_pin_change", "long_touch_for_reset", "certifications"]), ("CredentialManagement", "cmresp", ["third_party_payment"])]
+    for kind, tag, members in feat:
+        schema = spec.RESPONSES[kind]
+        for mbr in members:
+            var = Variation(present={schema.name: [mbr]}, default_present="all", intclass=0, maxlen=4, text="ascii", seed=seed)
+            add(encode_harness("c16_resp_%s_feature_%s" % (tag, mbr), "C16", kind, var,
+                               "%s response: feature-gated member %s appears under its specification key, common members unchanged" % (kind, mbr),
+                               via="direct"), configs="all8" if tier == T else "all")
+    for schema, tag, mbr in ((spec.MC_EXT, "mcext", "third_party_payment"), (spec.GA_EXT_IN, "gaext", "third_party_payment"),
+                             (spec.CTAP_OPTIONS, "ctapoptions", "ep"), (spec.CTAP_OPTIONS, "ctapoptions", "set_min_pin_length")):
+        var = Variation(present={schema.name: [mbr]}, default_present="none", intclass=0, seed=seed)
+        add(value_harness("c16_val_%s_feature_%s" % (tag, mbr), "C16", schema, var, "%s: feature-gated member %s under its own key" % (tag, mbr)),
+            configs="all8" if tier == T else "all")
+    write_gen("C16", hs, prelude=C16_PRELUDE)
+    metas.append(S("c16_large_blob_constant", "LARGE_BLOB_MAX_FRAGMENT_LENGTH per configuration; empty config encodes identically", configs="all8"))
     return metas
